@@ -1,12 +1,16 @@
-(** AtomTree: C08 for ALL-ATOM fragments, ring-free, organic-subset atoms, unbounded.
-    write_graph(smiles_format=True) on a tree-shaped fragment whose atoms are written as bare organic-subset
-    elements (B C N O P S F Cl Br I, charge 0, not aromatic, default hydrogen count) with their bonding descriptors
-    writes a text that (i) the strip model splits into the SMILES text and the dict {i: descriptors of the i-th
-    written atom} (the strip component's main lemma), (ii) Frag's model of pysmiles (tokenizer + base_smiles_parser +
-    parse_atom + bond orders; [SmilesProofs.render_parse]) reads as the graph with atom i = the i-th written atom and
-    one bond per tree edge with the order of its symbol, so that (iii) the model of fragment_iter(all_atom=True) up to
-    pysmiles' hydrogen completion ([Template.fragment_template]) returns the fragment renumbered in the order of
-    writing: elements, charges, aromatic flags, bond orders, and every descriptor on the atom it was attached to. *)
+(** AtomTree: C08 for ALL-ATOM fragments, ring-free, unbounded.
+    write_graph(smiles_format=True) on a tree-shaped fragment whose atoms come from the finite attribute domain
+    [aspec_ok] (element B C N O P S F Cl Br I, 0..9 hydrogens, charge -3..3, not aromatic, no isotope / class / stereo;
+    written by pysmiles' format_atom bare when the charge is 0 and has_default_h_count holds, else as a bracket atom
+    [E Hn charge]) with their bonding descriptors writes a text that (i) the strip model splits into the SMILES text, the
+    dict {i: descriptors of the i-th written atom} and the (empty) annotations of the bracket atoms (the strip component's
+    main lemma), (ii) Frag's model of pysmiles (tokenizer + base_smiles_parser + parse_atom + bond orders;
+    [SmilesProofs.render_parse]) reads as the graph with atom i = the i-th written atom and one bond per tree edge with
+    the order of its symbol, so that (iii) the model of fragment_iter(all_atom=True) up to pysmiles' hydrogen completion
+    ([Template.fragment_template]) returns the fragment renumbered in the order of writing: elements, charges, hydrogen
+    counts of bracket atoms, aromatic flags, bond orders, and every descriptor on the atom it was attached to.
+    [parse_atom] (a backtracking regex engine in the model) on the 1400 atom texts of the domain is decided by
+    computation ([aspec_table]); everything else is by induction over the tree. *)
 From Coq Require Import String.
 From Coq Require Import List Ascii ZArith Bool Lia Permutation.
 From CGV Require Import Base.PyBase Base.PyVal Base.PyGen Base.NxGraph Gen.WriterGen Gen.SmilesGen Dialect.DialectImpl.
@@ -21,8 +25,23 @@ Local Open Scope nat_scope.
 (** one node as it is written: "(" before it?, the symbol of the edge it was reached by, its key, ")" behind it? *)
 Record vis := { v_open : bool; v_sym : option bsym; v_key : Z; v_close : bool }.
 
+(** the token an atom is written as: a bare organic-subset element or a bracket atom without annotation *)
+Definition atom_tok (t : tok) : bool :=
+  match t with TAtom e => str_in e organic_atoms | TBracket body None => body_ok body | _ => false end.
+Definition is_bracket (t : tok) : bool := match t with TBracket _ _ => true | _ => false end.
+Lemma atom_tok_ok t : atom_tok t = true -> tok_ok t = true.
+Proof. destruct t as [e|body [a|]| | | | | |]; try discriminate; cbn [atom_tok tok_ok annot_ok]; intros H; [exact H|now rewrite H]. Qed.
+Lemma atom_tok_wf t z dd r : atom_tok t = true -> wf_items z dd (ITok t :: r) = wf_items ZAtom dd r.
+Proof. intros H. cbn [wf_items]. rewrite (atom_tok_ok t H). destruct t as [e|body [a|]| | | | | |]; try discriminate; reflexivity. Qed.
+Lemma atom_tok_gstep ks g t : atom_tok t = true -> gstep ks g t = Ok (add_atom g (clean_tok t)).
+Proof. destruct t as [e|body [a|]| | | | | |]; try discriminate; reflexivity. Qed.
+Lemma body_ok_rbr body : body_ok body = true -> forallb (fun c => negb (is_rbr c)) body = true.
+Proof.
+  unfold body_ok. intros H. apply andb_prop in H as [H _]. rewrite forallb_forall in *. intros c Hc. specialize (H c Hc). now apply andb_prop in H as [H _].
+Qed.
+
 Section Atoms.
-  Variable el : Z -> pystr.                       (* the element written for a node *)
+  Variable at_ : Z -> tok.                        (* the token written for a node *)
   Variable D : Z -> list dspec.                   (* its bonding descriptors *)
   Variable eo : Z -> Z -> option bsym.            (* the symbol written for a tree edge (None: single bond) *)
 
@@ -52,14 +71,14 @@ Section Atoms.
   Definition obtoks (o : option bsym) : list ditem := match o with Some b => [ITok (TBond b)] | None => [] end.
   Definition vitems (v : vis) : list ditem :=
     (if v_open v then [ITok TOpen] else []) ++ obtoks (v_sym v)
-    ++ ITok (TAtom (el (v_key v))) :: map IDesc (map to_desc (D (v_key v)))
+    ++ ITok (at_ (v_key v)) :: map IDesc (map to_desc (D (v_key v)))
     ++ (if v_close v then [ITok TClose] else []).
   Definition vtext (v : vis) : pystr :=
-    (if v_open v then S "(" else []) ++ optb (v_sym v) ++ (el (v_key v) ++ fbt (D (v_key v))) ++ (if v_close v then S ")" else []).
+    (if v_open v then S "(" else []) ++ optb (v_sym v) ++ (render_tok (at_ (v_key v)) ++ fbt (D (v_key v))) ++ (if v_close v then S ")" else []).
   Definition aitems (vs : list vis) : list ditem := flat_map vitems vs.
 
   (** the writer's text is the text of the visits *)
-  Definition antext (k : Z) : pystr := el k ++ fbt (D k).
+  Definition antext (k : Z) : pystr := render_tok (at_ k) ++ fbt (D k).
   Definition astext (p k : Z) : pystr := optb (eo p k).
   Lemma wtext_vis : forall t p isb d, wtext true antext astext p isb d t = flat_map vtext (wvis p isb d t).
   Proof.
@@ -93,13 +112,14 @@ Section Atoms.
   Qed.
 
   Hypothesis HD : forall k, forallb d_ok (D k) = true.
+  Hypothesis HA : forall k, atom_tok (at_ k) = true.
   Lemma render_obtoks o : render (obtoks o) = optb o.
   Proof. destruct o; reflexivity. Qed.
   Lemma render_vitems v : render (vitems v) = vtext v.
   Proof.
     unfold vitems, vtext. rewrite !render_app, render_obtoks, render_cons, render_app.
     assert (Ed : render (map IDesc (map to_desc (D (v_key v)))) = fbt (D (v_key v))) by (unfold render; apply render_descs; apply HD).
-    rewrite Ed. cbn [render_item render_tok]. destruct (v_open v), (v_close v); rewrite <- ?app_assoc; reflexivity.
+    rewrite Ed. cbn [render_item]. destruct (v_open v), (v_close v); cbn [render_tok app]; rewrite <- ?app_assoc; reflexivity.
   Qed.
   Lemma render_aitems vs : render (aitems vs) = flat_map vtext vs.
   Proof.
@@ -112,41 +132,43 @@ Section Atoms.
   Proof. apply flat_map_app. Qed.
   Definition vtoks (v : vis) : list tok :=
     (if v_open v then [TOpen] else []) ++ (match v_sym v with Some b => [TBond b] | None => [] end)
-    ++ TAtom (el (v_key v)) :: (if v_close v then [TClose] else []).
+    ++ at_ (v_key v) :: (if v_close v then [TClose] else []).
   Lemma toks_descs Ds : toks_of (map IDesc (map to_desc Ds)) = [].
   Proof. induction Ds as [|x r IH]; [reflexivity|exact IH]. Qed.
   Lemma toks_vitems v : toks_of (vitems v) = vtoks v.
   Proof.
     unfold vitems, vtoks. rewrite !toks_of_app. f_equal; [destruct (v_open v); reflexivity|]. f_equal; [destruct (v_sym v); reflexivity|].
-    change (ITok (TAtom (el (v_key v))) :: map IDesc (map to_desc (D (v_key v))) ++ (if v_close v then [ITok TClose] else []))
-      with ([ITok (TAtom (el (v_key v)))] ++ map IDesc (map to_desc (D (v_key v))) ++ (if v_close v then [ITok TClose] else [])).
+    change (ITok (at_ (v_key v)) :: map IDesc (map to_desc (D (v_key v))) ++ (if v_close v then [ITok TClose] else []))
+      with ([ITok (at_ (v_key v))] ++ map IDesc (map to_desc (D (v_key v))) ++ (if v_close v then [ITok TClose] else [])).
     rewrite !toks_of_app, toks_descs. cbn [app]. destruct (v_close v); reflexivity.
   Qed.
   Definition atoks (vs : list vis) : list tok := flat_map vtoks vs.
   Lemma toks_aitems vs : toks_of (aitems vs) = atoks vs.
   Proof. induction vs as [|v r IH]; [reflexivity|]. unfold aitems, atoks. cbn [flat_map]. fold (aitems r). fold (atoks r). now rewrite toks_of_app, toks_vitems, IH. Qed.
   Definition item_simple (i : ditem) : bool :=
-    match i with IDesc _ => true | ITok (TAtom _) | ITok (TBond _) | ITok TOpen | ITok TClose => true | _ => false end.
+    match i with IDesc _ => true | ITok (TAtom _) | ITok (TBracket _ None) | ITok (TBond _) | ITok TOpen | ITok TClose => true | _ => false end.
   Lemma simple_aitems vs : forallb item_simple (aitems vs) = true.
   Proof.
     induction vs as [|v r IH]; [reflexivity|]. unfold aitems. cbn [flat_map]. fold (aitems r). rewrite forallb_app, IH, andb_true_r.
-    unfold vitems. rewrite !forallb_app. cbn [forallb item_simple]. rewrite forallb_app.
+    unfold vitems. rewrite !forallb_app. cbn [forallb]. rewrite forallb_app.
     assert (E : forallb item_simple (map IDesc (map to_desc (D (v_key v)))) = true) by (induction (D (v_key v)); [reflexivity|assumption]).
-    rewrite E. destruct (v_open v), (v_sym v), (v_close v); reflexivity.
+    rewrite E. assert (Ea : item_simple (ITok (at_ (v_key v))) = true) by (pose proof (HA (v_key v)) as Hk; destruct (at_ (v_key v)) as [e|body [a|]| | | | | |]; try discriminate; reflexivity).
+    rewrite Ea. destruct (v_open v), (v_sym v), (v_close v); reflexivity.
   Qed.
   Lemma clean_simple : forall items, forallb item_simple items = true ->
     flat_map (fun i => match i with ITok t => clean_tok t | _ => [] end) items = render_smiles false (toks_of items).
   Proof.
     induction items as [|i r IH]; intros H; [reflexivity|]. cbn [forallb] in H. apply andb_prop in H as [H1 H2].
     cbn [flat_map]. rewrite (IH H2). destruct i as [d|t|d]; [discriminate| |reflexivity].
-    destruct t; try discriminate; reflexivity.
+    destruct t as [e|body [a|]| | | | | |]; try discriminate; reflexivity.
   Qed.
   Lemma wf_simple : forall items z d, forallb item_simple items = true -> wf_items z d items = true -> wf_toks z d (toks_of items) = true.
   Proof.
     induction items as [|i r IH]; intros z d H W; [exact W|]. cbn [forallb] in H. apply andb_prop in H as [H1 H2].
     destruct i as [x|t|x]; [discriminate| |].
-    - cbn [wf_items] in W. apply andb_prop in W as [Wt W]. destruct t; try discriminate H1; cbn [toks_of flat_map app wf_toks tok_smiles_ok]; fold (toks_of r).
+    - cbn [wf_items] in W. apply andb_prop in W as [Wt W]. destruct t as [e|body [a|]| | | | | |]; try discriminate H1; cbn [toks_of flat_map app wf_toks tok_smiles_ok]; fold (toks_of r).
       + cbn [tok_ok] in Wt. rewrite Wt. cbn [andb]. now apply IH.
+      + cbn [tok_ok] in Wt. apply andb_prop in Wt as [Wb _]. rewrite (body_ok_rbr _ Wb). cbn [andb]. now apply IH.
       + cbn [andb]. destruct z; try discriminate W; now apply IH.
       + apply andb_prop in W as [Wz W]. rewrite Wz. cbn [andb]. now apply IH.
       + apply andb_prop in W as [Wz W]. rewrite Wz. cbn [andb]. destruct d; [discriminate|]. now apply IH.
@@ -156,11 +178,16 @@ Section Atoms.
 
   (** ---------------------------------------------------------------- the strip specification on the visits *)
   Variable fo : float_oracle.
+  Variable a0 : attrs.
+  Hypothesis Hp0 : fragment_node_parser fo [] = Ok a0.
+  (** the annotation dict: every bracket atom gets the parse of its (empty) annotation *)
+  Fixpoint annl (n : nat) (fl : list bool) (d : ndict attrs) : ndict attrs :=
+    match fl with [] => d | b :: r => annl (Datatypes.S n) r (if b then nd_update n a0 d else d) end.
   Fixpoint ddl (n : nat) (Dl : list (list dspec)) (d : ndict (list pystr)) : ndict (list pystr) :=
     match Dl with [] => d | Ds :: r => ddl (Datatypes.S n) r (fold_left (fun d y => nd_append n (d_stored y) d) Ds d) end.
   Lemma spec_vitems v sp : exists sp', spec_run fo sp (vitems v) = Ok sp'
     /\ s_n sp' = Datatypes.S (s_n sp) /\ s_desc sp' = fold_left (fun d y => nd_append (s_n sp) (d_stored y) d) (D (v_key v)) (s_desc sp)
-    /\ s_ez sp' = s_ez sp /\ s_ann sp' = s_ann sp.
+    /\ s_ez sp' = s_ez sp /\ s_ann sp' = (if is_bracket (at_ (v_key v)) then nd_update (s_n sp) a0 (s_ann sp) else s_ann sp).
   Proof.
     unfold vitems.
     assert (A1 : exists sp1, spec_run fo sp (if v_open v then [ITok TOpen] else []) = Ok sp1
@@ -171,23 +198,24 @@ Section Atoms.
                    /\ s_n sp2 = s_n sp1 /\ s_desc sp2 = s_desc sp1 /\ s_ez sp2 = s_ez sp1 /\ s_ann sp2 = s_ann sp1)
       by (destruct (v_sym v); eexists; (split; [reflexivity|repeat split])).
     destruct A2 as [sp2 (E2 & N2 & D2 & Z2 & A2)]. rewrite spec_run_app, E2. cbn [bind].
-    cbn [spec_run spec_item spec_tok bind]. rewrite spec_run_app, (spec_descs fo _ (D (v_key v)) (HD (v_key v))). cbn [bind s_n s_owner s_stack s_clean s_desc s_ez s_ann].
-    destruct (v_close v); eexists; (split; [reflexivity|]); cbn [s_n s_desc s_ez s_ann]; rewrite N2, N1, D2, D1, Z2, Z1, A2, A1; repeat split.
+    pose proof (HA (v_key v)) as Hk.
+    destruct (at_ (v_key v)) as [e|body [a|]| | | | | |]; try discriminate Hk; cbn [spec_run spec_item spec_tok bind is_bracket]; rewrite ?Hp0; cbn [bind];
+      rewrite spec_run_app, (spec_descs fo _ (D (v_key v)) (HD (v_key v))); cbn [bind s_n s_owner s_stack s_clean s_desc s_ez s_ann];
+      destruct (v_close v); eexists; (split; [reflexivity|]); cbn [s_n s_desc s_ez s_ann]; rewrite N2, N1, D2, D1, Z2, Z1, A2, A1; repeat split.
   Qed.
   Lemma spec_aitems : forall vs sp, exists sp', spec_run fo sp (aitems vs) = Ok sp'
     /\ s_n sp' = s_n sp + length vs /\ s_desc sp' = ddl (s_n sp) (map (fun v => D (v_key v)) vs) (s_desc sp)
-    /\ s_ez sp' = s_ez sp /\ s_ann sp' = s_ann sp.
+    /\ s_ez sp' = s_ez sp /\ s_ann sp' = annl (s_n sp) (map (fun v => is_bracket (at_ (v_key v))) vs) (s_ann sp).
   Proof.
     induction vs as [|v r IH]; intros sp.
-    - exists sp. split; [reflexivity|]. cbn [length map ddl]. rewrite Nat.add_0_r. repeat split.
+    - exists sp. split; [reflexivity|]. cbn [length map ddl annl]. rewrite Nat.add_0_r. repeat split.
     - unfold aitems. cbn [flat_map]. fold (aitems r). rewrite spec_run_app.
       destruct (spec_vitems v sp) as [sp1 (E1 & N1 & D1 & Z1 & A1)]. rewrite E1. cbn [bind].
       destruct (IH sp1) as [sp' (E & N & Dd & Z & A)]. exists sp'. split; [exact E|]. rewrite N, Dd, Z, A, N1, D1, Z1, A1.
-      cbn [length map ddl]. repeat split. lia.
+      cbn [length map ddl annl]. repeat split. lia.
   Qed.
 
   (** ---------------------------------------------------------------- the visits are a text of the strip grammar *)
-  Hypothesis HE : forall k, str_in (el k) organic_atoms = true.
   Lemma wf_vitems v z depth rest :
     (if v_open v then z = ZAtom else match v_sym v with Some _ => z = ZAtom | None => True end) ->
     wf_items z depth (vitems v ++ rest)
@@ -195,10 +223,10 @@ Section Atoms.
        if v_close v then match d1 with O => false | Datatypes.S d2 => wf_items ZAtom d2 rest end else wf_items ZAtom d1 rest).
   Proof.
     intros Hz. unfold vitems. rewrite <- !app_assoc. cbv zeta. rewrite <- app_comm_cons, <- !app_assoc.
-    remember (ITok (TAtom (el (v_key v))) :: map IDesc (map to_desc (D (v_key v))) ++ (if v_close v then [ITok TClose] else []) ++ rest) as tail eqn:Et.
+    remember (ITok (at_ (v_key v)) :: map IDesc (map to_desc (D (v_key v))) ++ (if v_close v then [ITok TClose] else []) ++ rest) as tail eqn:Et.
     assert (T : forall z' dd, wf_items z' dd tail
                 = if v_close v then match dd with O => false | Datatypes.S d2 => wf_items ZAtom d2 rest end else wf_items ZAtom dd rest).
-    { intros z' dd. rewrite Et. cbn [wf_items tok_ok]. rewrite HE. cbn [andb]. rewrite wf_descs by apply HD.
+    { intros z' dd. rewrite Et. rewrite (atom_tok_wf _ z' dd _ (HA (v_key v))). rewrite wf_descs by apply HD.
       destruct (v_close v); [|reflexivity]. cbn [app wf_items tok_ok is_zatom andb]. reflexivity. }
     clear Et.
     destruct (v_open v).
@@ -272,7 +300,9 @@ Lemma wkeys_br_cons k c r : wkeys_br k (c :: r) = wkeys_br k r ++ wkeys (Some k)
 Proof. reflexivity. Qed.
 
 Section Parse.
-  Variable el : Z -> pystr.
+  Variable at_ : Z -> tok.
+  Hypothesis HA : forall k, atom_tok (at_ k) = true.
+  Definition atx (k : Z) : pystr := clean_tok (at_ k).
   Variable eo : Z -> Z -> option bsym.
   Variable W : list Z.
   Hypothesis HW : NoDup W.
@@ -287,7 +317,7 @@ Section Parse.
     else if (0 <? d) then (match stack with a :: _ => Some a | [] => Some last end, tl stack)
     else (Some last, stack).
   Definition gafter (g : gst) (p : option Z) (isb : bool) (d : nat) (t : rtree) : gst :=
-    {| q_atoms := q_atoms g ++ map el (worder t); q_edges := q_edges g ++ map E3 (wkeys p t);
+    {| q_atoms := q_atoms g ++ map atx (worder t); q_edges := q_edges g ++ map E3 (wkeys p t);
        q_cur := fst (fin isb d (q_cur g) (q_stack g) (q_n g + length (worder t) - 1));
        q_n := q_n g + length (worder t); q_pend := None;
        q_stack := snd (fin isb d (q_cur g) (q_stack g) (q_n g + length (worder t) - 1));
@@ -295,29 +325,29 @@ Section Parse.
   Definition pcond (p : option Z) (isb : bool) (g : gst) : Prop :=
     match p with Some q => q_cur g = Some (pos q) | None => q_cur g = None /\ isb = false end.
   Definition ghead (g : gst) (p : option Z) (isb : bool) (k : Z) : gst :=
-    {| q_atoms := q_atoms g ++ [el k]; q_edges := q_edges g ++ map E3 (match p with Some q => [(q, k)] | None => [] end);
+    {| q_atoms := q_atoms g ++ [atx k]; q_edges := q_edges g ++ map E3 (match p with Some q => [(q, k)] | None => [] end);
        q_cur := Some (q_n g); q_n := Datatypes.S (q_n g); q_pend := None;
        q_stack := if isb then match q_cur g with Some a => a :: q_stack g | None => q_stack g end else q_stack g;
        q_open := q_open g; q_ez := q_ez g |}.
   Lemma grun_head g p isb k rest : pos k = q_n g -> q_pend g = None -> pcond p isb g ->
-    grun false g ((if isb then [TOpen] else []) ++ (match psym eo p k with Some b => [TBond b] | None => [] end) ++ TAtom (el k) :: rest)
+    grun false g ((if isb then [TOpen] else []) ++ (match psym eo p k with Some b => [TBond b] | None => [] end) ++ at_ k :: rest)
     = grun false (ghead g p isb k) rest.
   Proof.
     intros Hk Hp Hc. destruct g as [ga ge gc gn gp gs go gz]. cbn [q_n q_pend q_cur] in *. subst gp.
-    unfold ghead, pcond, psym in *. cbn [q_atoms q_edges q_cur q_n q_pend q_stack q_open q_ez] in *.
+    unfold ghead, pcond, psym, atx in *. cbn [q_atoms q_edges q_cur q_n q_pend q_stack q_open q_ez] in *.
     destruct p as [q|].
     - subst gc. unfold E3. cbn [map fst snd]. rewrite Hk.
-      destruct isb, (eo q k); cbn [app grun gstep bind add_atom clean_tok render_tok q_atoms q_edges q_cur q_n q_pend q_stack q_open q_ez option_map]; reflexivity.
-    - destruct Hc as [-> ->]. cbn [map app grun gstep bind add_atom clean_tok render_tok q_atoms q_edges q_cur q_n q_pend q_stack q_open q_ez]. now rewrite app_nil_r.
+      destruct isb, (eo q k); cbn [app grun gstep bind]; rewrite (atom_tok_gstep _ _ _ (HA k)); cbn [bind add_atom q_atoms q_edges q_cur q_n q_pend q_stack q_open q_ez option_map]; reflexivity.
+    - destruct Hc as [-> ->]. cbn [map app grun]. rewrite (atom_tok_gstep _ _ _ (HA k)). cbn [bind add_atom q_atoms q_edges q_cur q_n q_pend q_stack q_open q_ez]. now rewrite app_nil_r.
   Qed.
 
   Lemma grun_wvis : forall t p isb d g rest pre post,
     W = pre ++ worder t ++ post -> length pre = q_n g -> q_pend g = None -> pcond p isb g ->
-    grun false g (atoks el (wvis eo p isb d t) ++ rest) = grun false (gafter g p isb d t) rest.
+    grun false g (atoks at_ (wvis eo p isb d t) ++ rest) = grun false (gafter g p isb d t) rest.
   Proof.
     apply (rtree_ind2 (fun t => forall p isb d g rest pre post,
       W = pre ++ worder t ++ post -> length pre = q_n g -> q_pend g = None -> pcond p isb g ->
-      grun false g (atoks el (wvis eo p isb d t) ++ rest) = grun false (gafter g p isb d t) rest)).
+      grun false g (atoks at_ (wvis eo p isb d t) ++ rest) = grun false (gafter g p isb d t) rest)).
     intros k cs IH p isb d g rest pre post HWt Hl Hp Hc.
     assert (Hk : pos k = q_n g).
     { rewrite <- Hl. destruct cs as [|c1 bs]; [apply (pos_at pre k post); exact HWt|].
@@ -332,22 +362,22 @@ Section Parse.
       + destruct (0 <? d) eqn:Ed; cbn [app grun gstep bind q_atoms q_edges q_cur q_n q_pend q_stack q_open q_ez tl fst snd]; [|reflexivity].
         destruct (q_stack g); reflexivity.
     - rewrite wvis_cons. set (d1 := if isb then Datatypes.S d else d). unfold atoks. cbn [flat_map]. rewrite flat_map_app.
-      fold (atoks el (wvis_br eo k d1 bs)). fold (atoks el (wvis eo (Some k) false d1 c1)).
+      fold (atoks at_ (wvis_br eo k d1 bs)). fold (atoks at_ (wvis eo (Some k) false d1 c1)).
       unfold vtoks at 1. cbn [v_open v_sym v_key v_close]. rewrite <- !app_assoc, <- app_comm_cons. cbn [app].
       rewrite (grun_head g p isb k _ Hk Hp Hc).
       rewrite worder_cons in HWt. cbn [app] in HWt. rewrite <- app_assoc in HWt.
       assert (B : forall l g0 rest' pre0 post0,
                  Forall (fun t => forall p isb d g rest pre post,
                    W = pre ++ worder t ++ post -> length pre = q_n g -> q_pend g = None -> pcond p isb g ->
-                   grun false g (atoks el (wvis eo p isb d t) ++ rest) = grun false (gafter g p isb d t) rest) l ->
+                   grun false g (atoks at_ (wvis eo p isb d t) ++ rest) = grun false (gafter g p isb d t) rest) l ->
                  W = pre0 ++ worder_branches l ++ post0 -> length pre0 = q_n g0 -> q_pend g0 = None -> q_cur g0 = Some (pos k) ->
-                 grun false g0 (atoks el (wvis_br eo k d1 l) ++ rest')
-                 = grun false {| q_atoms := q_atoms g0 ++ map el (worder_branches l); q_edges := q_edges g0 ++ map E3 (wkeys_br k l);
+                 grun false g0 (atoks at_ (wvis_br eo k d1 l) ++ rest')
+                 = grun false {| q_atoms := q_atoms g0 ++ map atx (worder_branches l); q_edges := q_edges g0 ++ map E3 (wkeys_br k l);
                                  q_cur := q_cur g0; q_n := q_n g0 + length (worder_branches l); q_pend := None; q_stack := q_stack g0;
                                  q_open := q_open g0; q_ez := q_ez g0 |} rest').
       { induction l as [|c r IHr]; intros g0 rest' pre0 post0 Hall HW0 Hl0 Hp0 Hc0.
         - cbn [wvis_br atoks flat_map app worder_branches map length wkeys_br]. destruct g0; cbn in *. subst. rewrite !app_nil_r, Nat.add_0_r. reflexivity.
-        - rewrite wvis_br_cons. unfold atoks. rewrite flat_map_app. fold (atoks el (wvis_br eo k d1 r)). fold (atoks el (wvis eo (Some k) true d1 c)).
+        - rewrite wvis_br_cons. unfold atoks. rewrite flat_map_app. fold (atoks at_ (wvis_br eo k d1 r)). fold (atoks at_ (wvis eo (Some k) true d1 c)).
           rewrite <- app_assoc. rewrite worder_branches_cons, <- app_assoc in HW0.
           rewrite (IHr g0 _ pre0 (worder c ++ post0) (Forall_inv_tail Hall) HW0 Hl0 Hp0 Hc0).
           rewrite (Forall_inv Hall (Some k) true d1 _ rest' (pre0 ++ worder_branches r) post0).
@@ -388,32 +418,67 @@ End Parse.
 
 (** ------------------------------------------------------------------ atoms and bond orders as pysmiles' model reads them *)
 Definition upper_organic : list pystr := [S "B"; S "C"; S "N"; S "O"; S "P"; S "S"; S "F"; S "Cl"; S "Br"; S "I"].
-Definition atom_attrs (e : pystr) : attrs := [(S "element", VStr e); (S "charge", VInt 0); (S "aromatic", VBool false)].
 Lemma upper_cases e : str_in e upper_organic = true ->
   e = S "B" \/ e = S "C" \/ e = S "N" \/ e = S "O" \/ e = S "P" \/ e = S "S" \/ e = S "F" \/ e = S "Cl" \/ e = S "Br" \/ e = S "I".
 Proof.
   unfold str_in, upper_organic. cbn [existsb]. intros H.
   repeat (apply orb_prop in H; destruct H as [H|H]); try discriminate H; apply str_eqb_eq in H; subst e; tauto.
 Qed.
-Lemma parse_upper e : str_in e upper_organic = true -> parse_atom e = Ok (atom_attrs e).
-Proof. intros H. destruct (upper_cases e H) as [->|[->|[->|[->|[->|[->|[->|[->|[->| ->]]]]]]]]]; vm_compute; reflexivity. Qed.
-Lemma upper_is_organic e : str_in e upper_organic = true -> str_in e organic_atoms = true.
-Proof. intros H. destruct (upper_cases e H) as [->|[->|[->|[->|[->|[->|[->|[->|[->| ->]]]]]]]]]; reflexivity. Qed.
+(** an atom as the writer sees it: element, hydrogen count, charge, and whether pysmiles' format_atom writes it bare
+    (charge 0 and has_default_h_count) or as a bracket atom [E Hn charge] *)
+Record aspec := { a_el : pystr; a_h : Z; a_c : Z; a_bare : bool }.
+Definition hs_text (hcount : Z) : pystr := if Z.eqb hcount 0 then [] else if (hcount >? 1)%Z then S "H" ++ str_of_Z hcount else S "H".
+Definition cs_text (charge : Z) : pystr :=
+  if (charge >? 0)%Z then (if (charge >? 1)%Z then S "+" ++ str_of_Z charge else S "+")
+  else if (charge <? 0)%Z then (if (charge <? -1)%Z then S "-" ++ str_of_Z (- charge) else S "-")
+  else [].
+Definition abody (s : aspec) : pystr := a_el s ++ hs_text (a_h s) ++ cs_text (a_c s).
+Definition atok_of (s : aspec) : tok := if a_bare s then TAtom (a_el s) else TBracket (abody s) None.
+(** what pysmiles' parse_atom returns for it (a bare atom has no hcount key before fill_valence) *)
+Definition aattrs (s : aspec) : attrs :=
+  if a_bare s then [(S "element", VStr (a_el s)); (S "charge", VInt 0); (S "aromatic", VBool false)]
+  else [(S "charge", VInt (a_c s)); (S "hcount", VInt (a_h s)); (S "aromatic", VBool false); (S "element", VStr (a_el s))].
+(** the finite attribute domain: B C N O P S F Cl Br I, 0..9 hydrogens, charge -3..3; bare only with charge 0 *)
+Definition aspec_ok (s : aspec) : bool :=
+  str_in (a_el s) upper_organic && (0 <=? a_h s)%Z && (a_h s <=? 9)%Z && (-3 <=? a_c s)%Z && (a_c s <=? 3)%Z
+  && (if a_bare s then Z.eqb (a_c s) 0 else true).
+Lemma aspec_table s : aspec_ok s = true ->
+  atom_tok (atok_of s) = true /\ parse_atom (clean_tok (atok_of s)) = Ok (aattrs s)
+  /\ forallb (fun c => negb (Ascii.eqb c ","%char)) (render_tok (atok_of s)) = true.
+Proof.
+  destruct s as [e h c b]. unfold aspec_ok. cbn [a_el a_h a_c a_bare]. intros H.
+  apply andb_prop in H as [H Hb]. apply andb_prop in H as [H C2]. apply andb_prop in H as [H C1]. apply andb_prop in H as [H H2]. apply andb_prop in H as [He H1].
+  apply Z.leb_le in H1, H2, C1, C2.
+  assert (Hh : (h = 0 \/ h = 1 \/ h = 2 \/ h = 3 \/ h = 4 \/ h = 5 \/ h = 6 \/ h = 7 \/ h = 8 \/ h = 9)%Z) by lia.
+  assert (Hc : (c = -3 \/ c = -2 \/ c = -1 \/ c = 0 \/ c = 1 \/ c = 2 \/ c = 3)%Z) by lia.
+  clear H1 H2 C1 C2.
+  destruct b.
+  - apply Z.eqb_eq in Hb. subst c. clear Hc Hh.
+    destruct (upper_cases e He) as [->|[->|[->|[->|[->|[->|[->|[->|[->| ->]]]]]]]]]; (split; [|split]); vm_compute; reflexivity.
+  - clear Hb.
+    destruct (upper_cases e He) as [->|[->|[->|[->|[->|[->|[->|[->|[->| ->]]]]]]]]];
+      destruct Hh as [->|[->|[->|[->|[->|[->|[->|[->|[->| ->]]]]]]]]];
+      destruct Hc as [->|[->|[->|[->|[->|[->| ->]]]]]]; (split; [|split]); vm_compute; reflexivity.
+Qed.
+Lemma aattrs_not_aromatic s : aget (S "aromatic") (aattrs s) = Some (VBool false).
+Proof. unfold aattrs. destruct (a_bare s); reflexivity. Qed.
 Definition ordv (o : option bsym) : pyval := match o with Some b => border b | None => VInt 1 end.
 
 Section Interpret.
-  Variable el : Z -> pystr.
+  Variable at_ : Z -> tok.
+  Variable aat : Z -> attrs.
   Variable eo : Z -> Z -> option bsym.
-  Hypothesis HU : forall k, str_in (el k) upper_organic = true.
-  Lemma parse_atoms ks : map_res parse_atom (map el ks) = Ok (map (fun k => atom_attrs (el k)) ks).
-  Proof. induction ks as [|k r IH]; [reflexivity|]. cbn [map map_res]. rewrite (parse_upper _ (HU k)). cbn [bind]. rewrite IH. reflexivity. Qed.
-  Lemma not_aromatic ks i : node_aromatic (map (fun k => atom_attrs (el k)) ks) i = false.
+  Hypothesis Hpa : forall k, parse_atom (clean_tok (at_ k)) = Ok (aat k).
+  Hypothesis Har : forall k, aget (S "aromatic") (aat k) = Some (VBool false).
+  Lemma parse_atoms ks : map_res parse_atom (map (atx at_) ks) = Ok (map aat ks).
+  Proof. induction ks as [|k r IH]; [reflexivity|]. cbn [map map_res]. unfold atx at 1. rewrite (Hpa k). cbn [bind]. rewrite IH. reflexivity. Qed.
+  Lemma not_aromatic ks i : node_aromatic (map aat ks) i = false.
   Proof.
-    unfold node_aromatic. destruct (nth_error (map (fun k => atom_attrs (el k)) ks) i) as [a|] eqn:E; [|reflexivity].
-    apply nth_error_In in E. apply in_map_iff in E as [k [<- _]]. reflexivity.
+    unfold node_aromatic. destruct (nth_error (map aat ks) i) as [a|] eqn:E; [|reflexivity].
+    apply nth_error_In in E. apply in_map_iff in E as [k [<- _]]. now rewrite Har.
   Qed.
   Lemma edge_orders (f : Z -> nat) ks es :
-    map_res (SmilesParse.edge_order (map (fun k => atom_attrs (el k)) ks)) (map (fun e : Z * Z => (f (fst e), f (snd e), option_map bchar (eo (fst e) (snd e)))) es)
+    map_res (SmilesParse.edge_order (map aat ks)) (map (fun e : Z * Z => (f (fst e), f (snd e), option_map bchar (eo (fst e) (snd e)))) es)
     = Ok (map (fun e => (f (fst e), f (snd e), ordv (eo (fst e) (snd e)))) es).
   Proof.
     induction es as [|e r IH]; [reflexivity|]. cbn [map map_res]. rewrite IH. unfold SmilesParse.edge_order at 1.
@@ -423,68 +488,101 @@ Section Interpret.
   Qed.
 End Interpret.
 
-Lemma nomult_simple el D vs : has_mult (aitems el D vs) = false.
+Lemma nomult_simple at_ D (HA : forall k, atom_tok (at_ k) = true) vs : has_mult (aitems at_ D vs) = false.
 Proof.
-  pose proof (simple_aitems el D vs) as H. unfold has_mult. induction (aitems el D vs) as [|i r IH]; [reflexivity|].
+  pose proof (simple_aitems at_ D HA vs) as H. unfold has_mult. induction (aitems at_ D vs) as [|i r IH]; [reflexivity|].
   cbn [forallb] in H. apply andb_prop in H as [H1 H2]. cbn [existsb]. rewrite (IH H2), orb_false_r.
-  destruct i as [x|t|x]; try reflexivity. destruct t; try reflexivity; discriminate H1.
+  destruct i as [x|t|x]; try reflexivity. destruct t as [e|body [a|]| | | | | |]; try reflexivity; discriminate H1.
 Qed.
 
 (** ------------------------------------------------------------------ the round trip of a tree-shaped all-atom transcript *)
 (** the graph pysmiles' model reads: atom i = the i-th written atom, one bond per tree edge *)
-Definition tree_sgraph (el : Z -> pystr) (eo : Z -> Z -> option bsym) (T : rtree) : sgraph :=
-  {| g_nodes := map (fun k => atom_attrs (el k)) (worder T);
+Definition tree_sgraph (aat : Z -> attrs) (eo : Z -> Z -> option bsym) (T : rtree) : sgraph :=
+  {| g_nodes := map aat (worder T);
      g_edges := map (fun e => (pos (worder T) (fst e), pos (worder T) (snd e), ordv (eo (fst e) (snd e)))) (wkeys None T);
      g_ez := [] |}.
-Definition tree_text (el : Z -> pystr) (D : Z -> list dspec) (eo : Z -> Z -> option bsym) (T : rtree) : pystr :=
-  render (aitems el D (wvis eo None false 0 T)).
-Definition tree_clean (el : Z -> pystr) (eo : Z -> Z -> option bsym) (T : rtree) : pystr :=
-  render_smiles false (atoks el (wvis eo None false 0 T)).
+Definition tree_text (at_ : Z -> tok) (D : Z -> list dspec) (eo : Z -> Z -> option bsym) (T : rtree) : pystr :=
+  render (aitems at_ D (wvis eo None false 0 T)).
+Definition tree_clean (at_ : Z -> tok) (eo : Z -> Z -> option bsym) (T : rtree) : pystr :=
+  render_smiles false (atoks at_ (wvis eo None false 0 T)).
 
-Theorem atom_tree_transcript : forall fo F el D eo T n fmt sym rsym,
+(** general form: any tokens [at_] that are atoms, parsed by pysmiles' model as [aat], none aromatic *)
+Theorem atom_tree_transcript_gen : forall fo a0 F at_ aat D eo T n fmt sym rsym,
+  fragment_node_parser fo [] = Ok a0 ->
   NoDup (rkeys T) -> (rsize T <= n)%nat ->
-  (forall k, str_in (el k) upper_organic = true) -> (forall k, forallb d_ok (D k) = true) ->
-  (forall k, In k (rkeys T) -> fmt k = Ok (el k ++ fbt (D k))) ->
+  (forall k, atom_tok (at_ k) = true) -> (forall k, parse_atom (clean_tok (at_ k)) = Ok (aat k)) ->
+  (forall k, aget (S "aromatic") (aat k) = Some (VBool false)) -> (forall k, forallb d_ok (D k) = true) ->
+  (forall k, In k (rkeys T) -> fmt k = Ok (render_tok (at_ k) ++ fbt (D k))) ->
   (forall e, In e (redges T) -> sym (fst e) (snd e) = Ok (optb (eo (fst e) (snd e)))) ->
   let dd := ddl 0 (map D (worder T)) [] in
+  let ann := annl a0 0 (map (fun k => is_bracket (at_ k)) (worder T)) [] in
   run_writer n (mk_env true fmt sym rsym (redges T) []) (rkey T)
-    = Ok {| r_text := tree_text el D eo T; r_visit := worder T; r_mtrace := [] |}
-  /\ strip_bonding_descriptors fo (tree_text el D eo T) = Ok (tree_clean el eo T, dd, [], [])
-  /\ smiles_parse (tree_clean el eo T) = Ok (tree_sgraph el eo T)
-  /\ fragment_template fo F (tree_text el D eo T) = Ok (assemble F (tree_sgraph el eo T) dd []).
+    = Ok {| r_text := tree_text at_ D eo T; r_visit := worder T; r_mtrace := [] |}
+  /\ strip_bonding_descriptors fo (tree_text at_ D eo T) = Ok (tree_clean at_ eo T, dd, [], ann)
+  /\ smiles_parse (tree_clean at_ eo T) = Ok (tree_sgraph aat eo T)
+  /\ fragment_template fo F (tree_text at_ D eo T) = Ok (assemble F (tree_sgraph aat eo T) dd ann).
 Proof.
-  intros fo F el D eo T n fmt sym rsym ND Hn HU HD Hf Hs. cbv zeta.
-  assert (HE : forall k, str_in (el k) organic_atoms = true) by (intros k; apply upper_is_organic, HU).
-  set (vs := wvis eo None false 0 T). set (items := aitems el D vs).
+  intros fo a0 F at_ aat D eo T n fmt sym rsym Hp0 ND Hn HA Hpa Har HD Hf Hs. cbv zeta.
+  set (vs := wvis eo None false 0 T). set (items := aitems at_ D vs).
   (* writer *)
   assert (Wr : run_writer n (mk_env true fmt sym rsym (redges T) []) (rkey T)
-               = Ok {| r_text := tree_text el D eo T; r_visit := worder T; r_mtrace := [] |}).
-  { rewrite (write_tree_transcript true fmt sym rsym (antext el D) (astext eo) T n ND Hn Hf Hs).
-    unfold tree_text. rewrite (render_aitems el D HD), <- (wtext_vis el D eo). reflexivity. }
+               = Ok {| r_text := tree_text at_ D eo T; r_visit := worder T; r_mtrace := [] |}).
+  { rewrite (write_tree_transcript true fmt sym rsym (antext at_ D) (astext eo) T n ND Hn Hf Hs).
+    unfold tree_text. rewrite (render_aitems at_ D HD), <- (wtext_vis at_ D eo). reflexivity. }
   (* strip *)
   assert (Wf : wf_items ZStart 0 items = true).
-  { pose proof (wf_wvis el D eo HD HE T None false 0 ZStart []) as E. rewrite app_nil_r in E. unfold items, vs. rewrite E; [reflexivity|intros X; now elim X|reflexivity]. }
-  destruct (spec_aitems el D HD fo vs sinit) as [sp' (Es & Nn & Dd & Ez & Ea)].
-  assert (Ecl : s_clean sp' = tree_clean el eo T).
-  { rewrite (spec_clean fo _ _ _ Es). cbn [sinit s_clean app]. rewrite (clean_simple _ (simple_aitems el D vs)), toks_aitems. reflexivity. }
+  { pose proof (wf_wvis at_ D eo HD HA T None false 0 ZStart []) as E. rewrite app_nil_r in E. unfold items, vs. rewrite E; [reflexivity|intros X; now elim X|reflexivity]. }
+  destruct (spec_aitems at_ D HD HA fo a0 Hp0 vs sinit) as [sp' (Es & Nn & Dd & Ez & Ea)].
+  assert (Ecl : s_clean sp' = tree_clean at_ eo T).
+  { rewrite (spec_clean fo _ _ _ Es). cbn [sinit s_clean app]. rewrite (clean_simple _ (simple_aitems at_ D HA vs)), toks_aitems. reflexivity. }
   assert (Hvk : map (fun v => D (v_key v)) vs = map D (worder T)).
   { unfold vs. rewrite <- (vkeys_worder eo T None false 0), map_map. reflexivity. }
-  assert (St : strip_bonding_descriptors fo (tree_text el D eo T) = Ok (tree_clean el eo T, ddl 0 (map D (worder T)) [], [], [])).
-  { unfold tree_text. fold vs. fold items. rewrite (strip_items fo items Wf (nomult_simple el D vs)). unfold items. rewrite Es. cbn [bind].
-    unfold FragProofs.sres. rewrite Ecl, Dd, Ez, Ea, Hvk. reflexivity. }
+  assert (Hvb : map (fun v => is_bracket (at_ (v_key v))) vs = map (fun k => is_bracket (at_ k)) (worder T)).
+  { unfold vs. rewrite <- (vkeys_worder eo T None false 0), map_map. reflexivity. }
+  assert (St : strip_bonding_descriptors fo (tree_text at_ D eo T)
+               = Ok (tree_clean at_ eo T, ddl 0 (map D (worder T)) [], [], annl a0 0 (map (fun k => is_bracket (at_ k)) (worder T)) [])).
+  { unfold tree_text. fold vs. fold items. rewrite (strip_items fo items Wf (nomult_simple at_ D HA vs)). unfold items. rewrite Es. cbn [bind].
+    unfold FragProofs.sres. rewrite Ecl, Dd, Ez, Ea, Hvk, Hvb. reflexivity. }
   (* pysmiles *)
-  assert (Ws : wf_smiles (atoks el vs) = true).
-  { unfold wf_smiles. rewrite <- toks_aitems with (D := D). apply wf_simple; [apply simple_aitems|exact Wf]. }
-  assert (Sp : smiles_parse (tree_clean el eo T) = Ok (tree_sgraph el eo T)).
+  assert (Ws : wf_smiles (atoks at_ vs) = true).
+  { unfold wf_smiles. rewrite <- toks_aitems with (D := D). apply wf_simple; [apply simple_aitems; exact HA|exact Wf]. }
+  assert (Sp : smiles_parse (tree_clean at_ eo T) = Ok (tree_sgraph aat eo T)).
   { unfold tree_clean. fold vs. rewrite (render_parse false _ Ws). unfold graph_of, graph_base.
-    pose proof (grun_wvis el eo (worder T) (worder_nodup T ND) T None false 0 ginit [] [] []) as G.
+    pose proof (grun_wvis at_ HA eo (worder T) (worder_nodup T ND) T None false 0 ginit [] [] []) as G.
     rewrite !app_nil_r in G. fold vs in G. rewrite G; [|reflexivity|reflexivity|reflexivity|split; reflexivity].
     cbn [grun bind gafter q_atoms q_edges q_ez ginit app]. unfold interpret.
-    rewrite (parse_atoms el HU). cbn [bind].
-    pose proof (edge_orders el eo (pos (worder T)) (worder T) (wkeys None T)) as EO. unfold E3, bondstr in *. rewrite EO. reflexivity. }
+    rewrite (parse_atoms at_ aat Hpa). cbn [bind].
+    pose proof (edge_orders aat eo Har (pos (worder T)) (worder T) (wkeys None T)) as EO. unfold E3, bondstr in *. rewrite EO. reflexivity. }
   split; [exact Wr|]. split; [exact St|]. split; [exact Sp|].
-  assert (NH : str_eqb (tree_clean el eo T) (S "H") = false) by (apply (clean_not_H _ Ws)).
+  assert (NH : str_eqb (tree_clean at_ eo T) (S "H") = false) by (apply (clean_not_H _ Ws)).
   unfold fragment_template. rewrite St. cbn [bind]. cbv beta iota. rewrite NH, Sp. reflexivity.
+Qed.
+
+(** atoms from the finite attribute domain [aspec_ok] *)
+Definition stok (sp : Z -> aspec) (k : Z) : tok := atok_of (sp k).
+Definition sattrs (sp : Z -> aspec) (k : Z) : attrs := aattrs (sp k).
+Theorem atom_tree_transcript : forall fo a0 F sp D eo T n fmt sym rsym,
+  fragment_node_parser fo [] = Ok a0 ->
+  NoDup (rkeys T) -> (rsize T <= n)%nat ->
+  (forall k, aspec_ok (sp k) = true) -> (forall k, forallb d_ok (D k) = true) ->
+  (forall k, In k (rkeys T) -> fmt k = Ok (render_tok (stok sp k) ++ fbt (D k))) ->
+  (forall e, In e (redges T) -> sym (fst e) (snd e) = Ok (optb (eo (fst e) (snd e)))) ->
+  let dd := ddl 0 (map D (worder T)) [] in
+  let ann := annl a0 0 (map (fun k => negb (a_bare (sp k))) (worder T)) [] in
+  run_writer n (mk_env true fmt sym rsym (redges T) []) (rkey T)
+    = Ok {| r_text := tree_text (stok sp) D eo T; r_visit := worder T; r_mtrace := [] |}
+  /\ strip_bonding_descriptors fo (tree_text (stok sp) D eo T) = Ok (tree_clean (stok sp) eo T, dd, [], ann)
+  /\ smiles_parse (tree_clean (stok sp) eo T) = Ok (tree_sgraph (sattrs sp) eo T)
+  /\ fragment_template fo F (tree_text (stok sp) D eo T) = Ok (assemble F (tree_sgraph (sattrs sp) eo T) dd ann).
+Proof.
+  intros fo a0 F sp D eo T n fmt sym rsym Hp0 ND Hn HS HD Hf Hs.
+  assert (Eb : map (fun k => negb (a_bare (sp k))) (worder T) = map (fun k => is_bracket (stok sp k)) (worder T)).
+  { apply map_ext. intros k. unfold stok, atok_of. destruct (a_bare (sp k)); reflexivity. }
+  cbv zeta. rewrite Eb.
+  apply (atom_tree_transcript_gen fo a0 F (stok sp) (sattrs sp) D eo T n fmt sym rsym Hp0 ND Hn); try assumption.
+  - intros k. apply (aspec_table (sp k) (HS k)).
+  - intros k. apply (proj2 (aspec_table (sp k) (HS k))).
+  - intros k. apply aattrs_not_aromatic.
 Qed.
 
 (** ------------------------------------------------------------------ the descriptor dict in closed form *)
@@ -540,6 +638,39 @@ Proof.
         destruct Ds as [|x xs]; cbn [app nd_get]; [|destruct (Nat.eqb_spec i n); [lia|]]; rewrite IH, E; reflexivity.
 Qed.
 
+(** the annotation dict in closed form: one entry per bracket atom, keyed by its position *)
+Fixpoint aentries (a0 : attrs) (n : nat) (fl : list bool) : ndict attrs :=
+  match fl with [] => [] | b :: r => (if b then [(n, aupdate [] a0)] else []) ++ aentries a0 (Datatypes.S n) r end.
+Lemma nd_update_fresh (n : nat) (a : attrs) : forall d : ndict attrs, (forall kv, In kv d -> fst kv <> n) -> nd_update n a d = d ++ [(n, aupdate [] a)].
+Proof.
+  induction d as [|[k y] r IH]; intros H; [reflexivity|]. cbn [nd_update]. destruct (Nat.eqb_spec n k) as [E|N].
+  - exfalso. apply (H (k, y)); [now left|now symmetry].
+  - cbn [app]. f_equal. apply IH. intros kv Hin. apply H. now right.
+Qed.
+Lemma annl_entries a0 : forall fl n (d : ndict attrs), (forall kv, In kv d -> fst kv < n) -> annl a0 n fl d = d ++ aentries a0 n fl.
+Proof.
+  induction fl as [|b r IH]; intros n d H; [now rewrite app_nil_r|]. cbn [annl aentries]. destruct b.
+  - rewrite nd_update_fresh by (intros kv Hin; specialize (H kv Hin); lia). rewrite IH; [now rewrite <- app_assoc|].
+    intros kv Hin. apply in_app_or in Hin as [Hin|[<-|[]]]; [specialize (H kv Hin); lia|cbn [fst]; lia].
+  - cbn [app]. apply IH. intros kv Hin. specialize (H kv Hin). lia.
+Qed.
+Lemma nd_get_aentries a0 : forall fl n i,
+  nd_get i (aentries a0 n fl) = if i <? n then None else match nth_error fl (i - n) with Some true => Some (aupdate [] a0) | _ => None end.
+Proof.
+  induction fl as [|b r IH]; intros n i.
+  - cbn [aentries nd_get]. destruct (i <? n); [reflexivity|]. destruct (i - n); reflexivity.
+  - cbn [aentries]. destruct (i <? n) eqn:Lt.
+    + apply Nat.ltb_lt in Lt. assert (E : i <? Datatypes.S n = true) by (apply Nat.ltb_lt; lia).
+      destruct b; cbn [app nd_get]; [destruct (Nat.eqb_spec i n); [lia|]|]; rewrite IH, E; reflexivity.
+    + apply Nat.ltb_ge in Lt. destruct (Nat.eq_dec i n) as [->|N].
+      * rewrite Nat.sub_diag. cbn [nth_error]. destruct b; cbn [app nd_get].
+        -- now rewrite Nat.eqb_refl.
+        -- rewrite IH. assert (E : n <? Datatypes.S n = true) by (apply Nat.ltb_lt; lia). now rewrite E.
+      * assert (E : i <? Datatypes.S n = false) by (apply Nat.ltb_ge; lia).
+        replace (i - n) with (Datatypes.S (i - Datatypes.S n)) by lia. cbn [nth_error].
+        destruct b; cbn [app nd_get]; [destruct (Nat.eqb_spec i n); [lia|]|]; rewrite IH, E; reflexivity.
+Qed.
+
 (** ------------------------------------------------------------------ the edges written are the tree edges *)
 Lemma wkeys_perm : forall t p, Permutation (wkeys p t) ((match p with Some q => [(q, rkey t)] | None => [] end) ++ redges t).
 Proof.
@@ -560,39 +691,42 @@ Qed.
     ([worder] has no duplicates and is a permutation of the nodes); atom [pos k] of the template carries k's element
     (charge 0, not aromatic), the fragment's name, and exactly k's descriptors as `bonding`; the bonds of the template
     are exactly the tree edges with their orders (as a multiset) *)
-Theorem atom_tree_template_iso : forall F el D eo T, NoDup (rkeys T) ->
+Theorem atom_tree_template_iso : forall a0 F (aat : Z -> attrs) (br : Z -> bool) D eo T, NoDup (rkeys T) ->
   let W := worder T in
-  let Tm := assemble F (tree_sgraph el eo T) (ddl 0 (map D W) []) [] in
+  let Tm := assemble F (tree_sgraph aat eo T) (ddl 0 (map D W) []) (annl a0 0 (map br W) []) in
   NoDup W /\ Permutation W (rkeys T) /\ length (t_nodes Tm) = length W
   /\ (forall k, In k (rkeys T) ->
         nth_error W (pos W k) = Some k
         /\ nth_error (t_nodes Tm) (pos W k)
-           = Some (template_node F (atom_attrs (el k)) (match D k with [] => None | Ds => Some (map d_stored Ds) end) None))
+           = Some (template_node F (aat k) (match D k with [] => None | Ds => Some (map d_stored Ds) end)
+                                 (if br k then Some (aupdate [] a0) else None)))
   /\ Permutation (t_edges Tm) (map (fun e => (pos W (fst e), pos W (snd e), ordv (eo (fst e) (snd e)))) (redges T)).
 Proof.
-  intros F el D eo T ND. cbv zeta. split; [now apply worder_nodup|]. split; [apply worder_perm|].
+  intros a0 F aat br D eo T ND. cbv zeta. split; [now apply worder_nodup|]. split; [apply worder_perm|].
   split; [unfold assemble, tree_sgraph; cbn [t_nodes g_nodes]; now rewrite map_length, combine_length, seq_length, !map_length, Nat.min_id|].
   split.
   - intros k Hk. assert (Hw : In k (worder T)) by (apply (Permutation_in k (Permutation_sym (worder_perm T))); exact Hk).
     pose proof (zidx_nth k (worder T) Hw) as Hn. split; [exact Hn|]. unfold pos.
     unfold assemble, tree_sgraph. cbn [t_nodes g_nodes].
-    assert (Hb : nth_error (map (fun k0 => atom_attrs (el k0)) (worder T)) (zidx k (worder T)) = Some (atom_attrs (el k))) by (now rewrite (map_nth_error _ _ _ Hn)).
-    rewrite nth_error_map, (nth_error_combine_seq _ 0 _ _ Hb). cbn [option_map fst snd Nat.add nd_get]. f_equal. f_equal.
-    rewrite (ddl_entries (map D (worder T)) 0 []) by (intros kv []). cbn [app]. rewrite nd_get_dentries. cbn [Nat.ltb Nat.leb]. rewrite Nat.sub_0_r.
-    rewrite (map_nth_error D _ _ Hn). destruct (D k); reflexivity.
+    assert (Hb : nth_error (map aat (worder T)) (zidx k (worder T)) = Some (aat k)) by (now rewrite (map_nth_error _ _ _ Hn)).
+    rewrite nth_error_map, (nth_error_combine_seq _ 0 _ _ Hb). cbn [option_map fst snd Nat.add]. f_equal. f_equal.
+    + rewrite (ddl_entries (map D (worder T)) 0 []) by (intros kv []). cbn [app]. rewrite nd_get_dentries. cbn [Nat.ltb Nat.leb]. rewrite Nat.sub_0_r.
+      rewrite (map_nth_error D _ _ Hn). destruct (D k); reflexivity.
+    + rewrite (annl_entries a0 (map br (worder T)) 0 []) by (intros kv []). cbn [app]. rewrite nd_get_aentries. cbn [Nat.ltb Nat.leb]. rewrite Nat.sub_0_r.
+      rewrite (map_nth_error br _ _ Hn). destruct (br k); reflexivity.
   - unfold assemble, tree_sgraph. cbn [t_edges g_edges]. apply Permutation_map. exact (wkeys_perm T None).
 Qed.
 
 (** ------------------------------------------------------------------ graph level: write_graph(smiles_format=True) on a fragment graph *)
 Local Open Scope Z_scope.
-(** a node the writer writes as a bare organic-subset element followed by its descriptors *)
-Definition atom_ok (dh : Z -> bool) (el : Z -> pystr) (D : Z -> list dspec) (n : nrec) : Prop :=
-  aget (S "element") (na n) = Some (VStr (el (nk n)))
-  /\ (aget (S "charge") (na n) = None \/ aget (S "charge") (na n) = Some (VInt 0))
-  /\ (aget (S "hcount") (na n) = None \/ exists h, aget (S "hcount") (na n) = Some (VInt h))
+(** a node of the attribute domain: the writer writes its element bare or as a bracket atom, then its descriptors *)
+Definition atom_ok (dh : Z -> bool) (sp : Z -> aspec) (D : Z -> list dspec) (n : nrec) : Prop :=
+  aget (S "element") (na n) = Some (VStr (a_el (sp (nk n))))
+  /\ ((aget (S "charge") (na n) = None /\ a_c (sp (nk n)) = 0) \/ aget (S "charge") (na n) = Some (VInt (a_c (sp (nk n)))))
+  /\ ((aget (S "hcount") (na n) = None /\ a_h (sp (nk n)) = 0) \/ aget (S "hcount") (na n) = Some (VInt (a_h (sp (nk n)))))
   /\ (aget (S "aromatic") (na n) = None \/ aget (S "aromatic") (na n) = Some (VBool false))
   /\ aget (S "rs_isomer") (na n) = None /\ aget (S "isotope") (na n) = None /\ aget (S "class") (na n) = None
-  /\ dh (nk n) = true
+  /\ a_bare (sp (nk n)) = (Z.eqb (a_c (sp (nk n))) 0 && dh (nk n))
   /\ aget (S "bonding") (na n) = match D (nk n) with [] => None | Ds => Some (VList (map VStr (map d_stored Ds))) end.
 (** the symbol of an edge, from its integer order *)
 Definition eo_of (g : graph) (p k : Z) : option bsym :=
@@ -618,30 +752,38 @@ Proof.
 Qed.
 
 Section AtomGraph.
-  Variables (dh : Z -> bool) (el : Z -> pystr) (D : Z -> list dspec) (g : graph).
-  Hypothesis HU : forall k, str_in (el k) upper_organic = true.
+  Variables (dh : Z -> bool) (sp : Z -> aspec) (D : Z -> list dspec) (g : graph).
+  Hypothesis HS : forall k, aspec_ok (sp k) = true.
   Hypothesis HD : forall k, forallb d_ok (D k) = true.
-  Hypothesis Hnodes : forall n, In n g -> atom_ok dh el D n.
+  Hypothesis Hnodes : forall n, In n g -> atom_ok dh sp D n.
   Hypothesis Hord : orders_ok g.
 
-  Lemma atom_node_text k : In k (node_keys g) -> node_text_by (S "atomname") true dh g k = Ok (el k ++ fbt (D k)).
+  Lemma atom_node_text k : In k (node_keys g) -> node_text_by (S "atomname") true dh g k = Ok (render_tok (stok sp k) ++ fbt (D k)).
   Proof.
     intros Hk. destruct (in_keys_gfind g k Hk) as [n [Hf Hn]]. destruct (gfind_some k g n Hf) as [_ Ek].
     destruct (Hnodes n Hn) as (A1 & A2 & A3 & A4 & A5 & A6 & A7 & A8 & A9). rewrite Ek in *.
+    pose proof (HS k) as Hsk. unfold aspec_ok in Hsk. apply andb_prop in Hsk as [Hsk _]. do 4 (apply andb_prop in Hsk as [Hsk _]).
     unfold node_text_by, format_atom, bonding_suffix, node_attrs. rewrite Hf. cbn [bind].
     rewrite A1. cbn [as_str bind].
-    assert (Ec : match aget (S "charge") (na n) with Some v => as_int v | None => Ok 0 end = Ok 0) by (destruct A2 as [-> | ->]; reflexivity).
+    assert (Ec : match aget (S "charge") (na n) with Some v => as_int v | None => Ok 0 end = Ok (a_c (sp k))) by (destruct A2 as [[-> ->] | ->]; reflexivity).
     rewrite Ec. cbn [bind].
-    assert (Eh : exists h, match aget (S "hcount") (na n) with Some v => as_int v | None => Ok 0 end = Ok h) by (destruct A3 as [-> |[h ->]]; eexists; reflexivity).
-    destruct Eh as [h Eh]. rewrite Eh. cbn [bind].
+    assert (Eh : match aget (S "hcount") (na n) with Some v => as_int v | None => Ok 0 end = Ok (a_h (sp k))) by (destruct A3 as [[-> ->] | ->]; reflexivity).
+    rewrite Eh. cbn [bind].
     assert (Ea : match aget (S "aromatic") (na n) with Some v => truthy v | None => false end = false) by (destruct A4 as [-> | ->]; reflexivity).
-    rewrite Ea. unfold ahas. rewrite A5, A6, A7, A8. cbn [andb negb]. rewrite Z.eqb_refl. cbn [andb].
-    assert (Eo : str_in (py_lower (el k)) (map S ["b"; "c"; "n"; "o"; "p"; "s"; "*"]%string) || str_in (el k) (map S ["F"; "Cl"; "Br"; "I"]%string) = true).
-    { destruct (upper_cases (el k) (HU k)) as [->|[->|[->|[->|[->|[->|[->|[->|[->| ->]]]]]]]]]; vm_compute; reflexivity. }
-    rewrite Eo. cbn [bind]. rewrite A9.
-    destruct (D k) as [|d Ds] eqn:ED; [cbn [bind fbt fb_expected map concat]; now rewrite app_nil_r|]. rewrite <- ED.
-    assert (Et : truthy (VList (map VStr (map d_stored (D k)))) = true) by (rewrite ED; reflexivity).
-    rewrite Et. cbn [as_list bind]. rewrite strs_of_map. cbn [bind]. rewrite (fb_dspec (D k) (HD k)). reflexivity.
+    rewrite Ea. unfold ahas. rewrite A5, A6, A7. cbn [andb negb].
+    assert (Eo : str_in (py_lower (a_el (sp k))) (map S ["b"; "c"; "n"; "o"; "p"; "s"; "*"]%string) || str_in (a_el (sp k)) (map S ["F"; "Cl"; "Br"; "I"]%string) = true).
+    { destruct (upper_cases (a_el (sp k)) Hsk) as [->|[->|[->|[->|[->|[->|[->|[->|[->| ->]]]]]]]]]; vm_compute; reflexivity. }
+    rewrite Eo, andb_true_r, <- A8.
+    assert (Et : (if a_bare (sp k) then Ok (a_el (sp k))
+                  else Ok (S "[" ++ a_el (sp k) ++ (if a_h (sp k) =? 0 then [] else if a_h (sp k) >? 1 then S "H" ++ str_of_Z (a_h (sp k)) else S "H")
+                               ++ (if a_c (sp k) >? 0 then if a_c (sp k) >? 1 then S "+" ++ str_of_Z (a_c (sp k)) else S "+"
+                                   else if a_c (sp k) <? 0 then if a_c (sp k) <? -1 then S "-" ++ str_of_Z (- a_c (sp k)) else S "-" else []) ++ S "]"))
+                 = Ok (render_tok (stok sp k))).
+    { unfold stok, atok_of. destruct (a_bare (sp k)); [reflexivity|]. unfold abody, hs_text, cs_text. cbn [render_tok S list_ascii_of_string app]. now rewrite <- !app_assoc. }
+    rewrite Et. cbn [bind]. rewrite A9.
+    destruct (D k) as [|d Ds] eqn:ED; [cbn [bind fbt fb_expected map concat]; reflexivity|]. rewrite <- ED.
+    assert (Ett : truthy (VList (map VStr (map d_stored (D k)))) = true) by (rewrite ED; reflexivity).
+    rewrite Ett. cbn [as_list bind]. rewrite strs_of_map. cbn [bind]. rewrite (fb_dspec (D k) (HD k)). reflexivity.
   Qed.
   Lemma atom_edge_text p k : In k (neighbors g p) -> edge_text g p k = Ok (optb (eo_of g p k)).
   Proof.
@@ -655,19 +797,21 @@ Section AtomGraph.
     destruct C as [->|[->|[->|[->| ->]]]]; reflexivity.
   Qed.
 
-  Theorem atom_tree_graph : forall fo F start,
+  Theorem atom_tree_graph : forall fo a0 F start,
+    fragment_node_parser fo [] = Ok a0 ->
     graph_wf g = true -> min_node g = Ok start ->
     exists T, rkey T = start /\ dfs_edges g start = Ok (redges T) /\ NoDup (rkeys T)
       /\ (forall x, reachable g start x -> In x (rkeys T))
       /\ (forall e, In e (redges T) -> In (snd e) (neighbors g (fst e)))
       /\ let eo := eo_of g in
          let dd := ddl 0 (map D (worder T)) [] in
-         write_graph_full_by (S "atomname") true dh g [] = Ok {| r_text := tree_text el D eo T; r_visit := worder T; r_mtrace := [] |}
-         /\ strip_bonding_descriptors fo (tree_text el D eo T) = Ok (tree_clean el eo T, dd, [], [])
-         /\ smiles_parse (tree_clean el eo T) = Ok (tree_sgraph el eo T)
-         /\ fragment_template fo F (tree_text el D eo T) = Ok (assemble F (tree_sgraph el eo T) dd []).
+         let ann := annl a0 0 (map (fun k => negb (a_bare (sp k))) (worder T)) [] in
+         write_graph_full_by (S "atomname") true dh g [] = Ok {| r_text := tree_text (stok sp) D eo T; r_visit := worder T; r_mtrace := [] |}
+         /\ strip_bonding_descriptors fo (tree_text (stok sp) D eo T) = Ok (tree_clean (stok sp) eo T, dd, [], ann)
+         /\ smiles_parse (tree_clean (stok sp) eo T) = Ok (tree_sgraph (sattrs sp) eo T)
+         /\ fragment_template fo F (tree_text (stok sp) D eo T) = Ok (assemble F (tree_sgraph (sattrs sp) eo T) dd ann).
   Proof.
-    intros fo F start Hwf Hmin.
+    intros fo a0 F start Hp0 Hwf Hmin.
     destruct (graph_wf_facts g Hwf) as [Hc Hnd]. destruct (min_node_in g start Hmin) as [Hs _].
     destruct (dfs_total g start Hc Hnd Hs) as [es Ees].
     destruct (dfs_reaches_all g start es Ees) as [T (A1 & A2 & A3 & A4 & A5)]. subst es.
@@ -680,7 +824,7 @@ Section AtomGraph.
     exists T. split; [exact A1|]. split; [exact Ees|]. split; [exact A4|]. split; [exact A5|]. split; [exact Hedges|]. cbv zeta.
     assert (Hn : (rsize T <= length g)%nat).
     { pose proof (NoDup_incl_length A4 Hkeys) as Hl. unfold rsize, node_keys in *. now rewrite map_length in Hl. }
-    destruct (atom_tree_transcript fo F el D (eo_of g) T (length g) (node_text_by (S "atomname") true dh g) (edge_text g) (edge_text g) A4 Hn HU HD) as (W1 & W2 & W3 & W4).
+    destruct (atom_tree_transcript fo a0 F sp D (eo_of g) T (length g) (node_text_by (S "atomname") true dh g) (edge_text g) (edge_text g) Hp0 A4 Hn HS HD) as (W1 & W2 & W3 & W4).
     - intros k Hk. apply atom_node_text. now apply Hkeys.
     - intros e He. apply atom_edge_text. now apply Hedges.
     - split; [|split; [exact W2|split; [exact W3|exact W4]]].
@@ -688,78 +832,93 @@ Section AtomGraph.
   Qed.
 End AtomGraph.
 
-(** ------------------------------------------------------------------ non-vacuity: C[$a](N(CF)C)=O[>] with a double bond on a branch edge *)
-Definition mkag (nodes : list (Z * string * Z * list dspec)) (edges : list (Z * Z * Z)) : graph :=
-  fold_left (fun g e => add_edge g (fst (fst e)) (snd (fst e)) [(S "order", VInt (snd e))]) edges
-    (fold_left (fun g x => let '(k, e, h, Ds) := x in
-                           add_node g k ([(S "element", VStr (S e)); (S "charge", VInt 0); (S "aromatic", VBool false); (S "fragname", VStr (S "X"));
-                                          (S "hcount", VInt h)]
-                                         ++ match Ds with [] => [] | _ => [(S "bonding", VList (map VStr (map d_stored Ds)))] end))
-               nodes gempty).
-Definition ex_ag : graph :=
-  mkag [(0, "C", 1, [("$"%char, S "a", 1%nat)]); (1, "O", 0, [(">"%char, [], 1%nat)]); (2, "N", 0, []); (3, "C", 3, []); (4, "C", 2, []); (5, "F", 0, []);
-        (6, "Cl", 0, [("<"%char, S "x", 2%nat); ("!"%char, [], 0%nat)])]%string
-       [(0, 1, 2); (0, 2, 1); (2, 3, 1); (2, 4, 1); (4, 5, 1); (3, 6, 3)].
-Definition ex_ael (k : Z) : pystr :=
-  if Z.eqb k 1 then S "O" else if Z.eqb k 2 then S "N" else if Z.eqb k 5 then S "F" else if Z.eqb k 6 then S "Cl" else S "C".
-Definition ex_aD (k : Z) : list dspec :=
-  if Z.eqb k 0 then [("$"%char, S "a", 1%nat)] else if Z.eqb k 1 then [(">"%char, [], 1%nat)]
-  else if Z.eqb k 6 then [("<"%char, S "x", 2%nat); ("!"%char, [], 0%nat)] else [].
-Definition ex_aT : rtree := RNode 0 [RNode 1 []; RNode 2 [RNode 3 [RNode 6 []]; RNode 4 [RNode 5 []]]].
-Fixpoint strs_eqb (l : list pyval) (m : list pystr) : bool :=
+(** ------------------------------------------------------------------ the hypotheses, decided *)
+Fixpoint vstrs_eqb (l : list pyval) (m : list pystr) : bool :=
   match l, m with
   | [], [] => true
-  | VStr a :: l', b :: m' => str_eqb a b && strs_eqb l' m'
+  | VStr a :: l', b :: m' => str_eqb a b && vstrs_eqb l' m'
   | _, _ => false
   end.
-Lemma strs_eqb_eq : forall l m, strs_eqb l m = true -> l = map VStr m.
+Lemma vstrs_eqb_eq : forall l m, vstrs_eqb l m = true -> l = map VStr m.
 Proof.
-  induction l as [|v l IH]; intros [|b m] H; try discriminate; [reflexivity| |]; cbn [strs_eqb] in H.
+  induction l as [|v l IH]; intros [|b m] H; try discriminate; [reflexivity| |]; cbn [vstrs_eqb] in H.
   - destruct v; discriminate.
   - destruct v; try discriminate. apply andb_prop in H as [H1 H2]. apply str_eqb_eq in H1. subst. cbn [map]. f_equal. now apply IH.
 Qed.
-(** [atom_ok], decided *)
-Definition atom_ok_b (dh : Z -> bool) (el : Z -> pystr) (D : Z -> list dspec) (n : nrec) : bool :=
-  match aget (S "element") (na n) with Some (VStr e) => str_eqb e (el (nk n)) | _ => false end
-  && match aget (S "charge") (na n) with None => true | Some (VInt 0) => true | _ => false end
-  && match aget (S "hcount") (na n) with None => true | Some (VInt _) => true | _ => false end
+Definition atom_ok_b (dh : Z -> bool) (sp : Z -> aspec) (D : Z -> list dspec) (n : nrec) : bool :=
+  match aget (S "element") (na n) with Some (VStr e) => str_eqb e (a_el (sp (nk n))) | _ => false end
+  && match aget (S "charge") (na n) with None => Z.eqb (a_c (sp (nk n))) 0 | Some (VInt z) => Z.eqb z (a_c (sp (nk n))) | _ => false end
+  && match aget (S "hcount") (na n) with None => Z.eqb (a_h (sp (nk n))) 0 | Some (VInt z) => Z.eqb z (a_h (sp (nk n))) | _ => false end
   && match aget (S "aromatic") (na n) with None => true | Some (VBool false) => true | _ => false end
   && negb (ahas (S "rs_isomer") (na n)) && negb (ahas (S "isotope") (na n)) && negb (ahas (S "class") (na n))
-  && dh (nk n)
+  && Bool.eqb (a_bare (sp (nk n))) (Z.eqb (a_c (sp (nk n))) 0 && dh (nk n))
   && match aget (S "bonding") (na n), D (nk n) with
      | None, [] => true
-     | Some (VList l), (x :: xs) => strs_eqb l (map d_stored (x :: xs))
+     | Some (VList l), (x :: xs) => vstrs_eqb l (map d_stored (x :: xs))
      | _, _ => false
      end.
-Lemma atom_ok_dec dh el D n : atom_ok_b dh el D n = true -> atom_ok dh el D n.
+Lemma atom_ok_dec dh sp D n : atom_ok_b dh sp D n = true -> atom_ok dh sp D n.
 Proof.
   unfold atom_ok_b, atom_ok. intros H. repeat (apply andb_prop in H; destruct H as [H ?]).
   repeat split.
   - destruct (aget (S "element") (na n)) as [[| | | |e| | |]|]; try discriminate H. apply str_eqb_eq in H. now subst e.
-  - destruct (aget (S "charge") (na n)) as [[| |z| | | | |]|]; try discriminate; [|now left]. destruct z; try discriminate. now right.
-  - destruct (aget (S "hcount") (na n)) as [[| |z| | | | |]|]; try discriminate; [right; eauto|now left].
+  - destruct (aget (S "charge") (na n)) as [[| |z| | | | |]|]; try discriminate; [right|left]; match goal with X : Z.eqb _ _ = true |- _ => apply Z.eqb_eq in X end; [now subst z|now split].
+  - destruct (aget (S "hcount") (na n)) as [[| |z| | | | |]|]; try discriminate; [right|left]; match goal with X : Z.eqb _ (a_h _) = true |- _ => apply Z.eqb_eq in X | X : Z.eqb (a_h _) _ = true |- _ => apply Z.eqb_eq in X end; [now subst z|now split].
   - destruct (aget (S "aromatic") (na n)) as [[|[]| | | | | |]|]; try discriminate; [now right|now left].
   - unfold ahas in *. destruct (aget (S "rs_isomer") (na n)); [discriminate|reflexivity].
   - unfold ahas in *. destruct (aget (S "isotope") (na n)); [discriminate|reflexivity].
   - unfold ahas in *. destruct (aget (S "class") (na n)); [discriminate|reflexivity].
-  - assumption.
+  - now apply Bool.eqb_prop.
   - destruct (aget (S "bonding") (na n)) as [[| | | | |l| |]|], (D (nk n)) as [|x xs]; try discriminate; [|reflexivity].
-    f_equal. f_equal. now apply strs_eqb_eq.
+    f_equal. f_equal. now apply vstrs_eqb_eq.
 Qed.
+Definition orders_ok_b (g : graph) : bool :=
+  forallb (fun n => forallb (fun wa => match aget (S "order") (snd wa) with Some (VInt z) => (0 <=? z) && (z <=? 4) | _ => false end) (nadj n)) g.
+Lemma orders_ok_dec g : orders_ok_b g = true -> orders_ok g.
+Proof.
+  unfold orders_ok_b, orders_ok. intros Hb n Hn wa Hwa. rewrite forallb_forall in Hb. specialize (Hb n Hn). rewrite forallb_forall in Hb. specialize (Hb wa Hwa).
+  clear Hn Hwa. destruct (aget (S "order") (snd wa)) as [[| |z| | | | |]|]; try discriminate Hb. exists z. split; [reflexivity|]. apply andb_prop in Hb as [B1 B2]. lia.
+Qed.
+
+(** ------------------------------------------------------------------ non-vacuity *)
+Definition mkag (nodes : list (Z * string * Z * Z * list dspec)) (edges : list (Z * Z * Z)) : graph :=
+  fold_left (fun g e => add_edge g (fst (fst e)) (snd (fst e)) [(S "order", VInt (snd e))]) edges
+    (fold_left (fun g x => let '(k, e, h, c, Ds) := x in
+                           add_node g k ([(S "element", VStr (S e)); (S "charge", VInt c); (S "aromatic", VBool false); (S "fragname", VStr (S "X"));
+                                          (S "hcount", VInt h)]
+                                         ++ match Ds with [] => [] | _ => [(S "bonding", VList (map VStr (map d_stored Ds)))] end))
+               nodes gempty).
+(** nested branches, a double bond on a branch edge, a triple bond on a chain edge, a charged atom [N+], an atom without
+    default hydrogen count [CH2], the two-letter Cl, descriptors of the four kinds with orders 0, 1, 2 *)
+Definition ex_ag : graph :=
+  mkag [(0, "C", 1, 0, [("$"%char, S "a", 1%nat)]); (1, "O", 0, 0, [(">"%char, [], 1%nat)]); (2, "N", 0, 1, []); (3, "C", 3, 0, []); (4, "C", 2, 0, []); (5, "F", 0, 0, []);
+        (6, "Cl", 0, 0, [("<"%char, S "x", 2%nat); ("!"%char, [], 0%nat)])]%string
+       [(0, 1, 2); (0, 2, 1); (2, 3, 1); (2, 4, 1); (4, 5, 1); (3, 6, 3)].
+Definition ex_dh (k : Z) : bool := negb (Z.eqb k 4).
+Definition mksp (e : string) (h c : Z) (b : bool) : aspec := {| a_el := S e; a_h := h; a_c := c; a_bare := b |}.
+Definition ex_asp (k : Z) : aspec :=
+  if Z.eqb k 1 then mksp "O" 0 0 true else if Z.eqb k 2 then mksp "N" 0 1 false else if Z.eqb k 3 then mksp "C" 3 0 true
+  else if Z.eqb k 4 then mksp "C" 2 0 false else if Z.eqb k 5 then mksp "F" 0 0 true else if Z.eqb k 6 then mksp "Cl" 0 0 true else mksp "C" 1 0 true.
+Definition ex_aD (k : Z) : list dspec :=
+  if Z.eqb k 0 then [("$"%char, S "a", 1%nat)] else if Z.eqb k 1 then [(">"%char, [], 1%nat)]
+  else if Z.eqb k 6 then [("<"%char, S "x", 2%nat); ("!"%char, [], 0%nat)] else [].
+Definition ex_aT : rtree := RNode 0 [RNode 1 []; RNode 2 [RNode 3 [RNode 6 []]; RNode 4 [RNode 5 []]]].
 Example atom_tree_example :
   let fo : float_oracle := fun _ => None in
-  let dh := fun _ : Z => true in
   graph_wf ex_ag = true /\ min_node ex_ag = Ok 0 /\ ring_contract ex_ag (dfs_tree ex_ag) [] = true
-  /\ forallb (atom_ok_b dh ex_ael ex_aD) ex_ag = true
+  /\ forallb (atom_ok_b ex_dh ex_asp ex_aD) ex_ag = true /\ orders_ok_b ex_ag = true
+  /\ forallb (fun k => aspec_ok (ex_asp k)) [0; 1; 2; 3; 4; 5; 6; 7] = true
   /\ dfs_edges ex_ag 0 = Ok (redges ex_aT)
-  /\ write_graph_by (S "atomname") true dh ex_ag [] = Ok (S "C[$a](N(CF)C#Cl=[<x].[!])=O[>]")
-  /\ tree_text ex_ael ex_aD (eo_of ex_ag) ex_aT = S "C[$a](N(CF)C#Cl=[<x].[!])=O[>]"
-  /\ tree_clean ex_ael (eo_of ex_ag) ex_aT = S "C(N(CF)C#Cl)=O"
-  /\ match fragment_template fo (S "X") (S "C[$a](N(CF)C#Cl=[<x].[!])=O[>]") with
-     | Ok Tm => map (fun a => (aget (S "element") a, aget (S "bonding") a)) (t_nodes Tm)
-                = [(Some (VStr (S "C")), Some (VList [VStr (S "$a1")])); (Some (VStr (S "N")), None); (Some (VStr (S "C")), None); (Some (VStr (S "F")), None);
-                   (Some (VStr (S "C")), None); (Some (VStr (S "Cl")), Some (VList [VStr (S "<x2"); VStr (S "!0")])); (Some (VStr (S "O")), Some (VList [VStr (S ">1")]))]
+  /\ write_graph_by (S "atomname") true ex_dh ex_ag [] = Ok (S "C[$a]([N+]([CH2]F)C#Cl=[<x].[!])=O[>]")
+  /\ tree_text (stok ex_asp) ex_aD (eo_of ex_ag) ex_aT = S "C[$a]([N+]([CH2]F)C#Cl=[<x].[!])=O[>]"
+  /\ tree_clean (stok ex_asp) (eo_of ex_ag) ex_aT = S "C([N+]([CH2]F)C#Cl)=O"
+  /\ match fragment_template fo (S "X") (S "C[$a]([N+]([CH2]F)C#Cl=[<x].[!])=O[>]") with
+     | Ok Tm => map (fun a => (aget (S "element") a, aget (S "charge") a, aget (S "hcount") a, aget (S "bonding") a)) (t_nodes Tm)
+                = [(Some (VStr (S "C")), Some (VInt 0), None, Some (VList [VStr (S "$a1")])); (Some (VStr (S "N")), Some (VInt 1), Some (VInt 0), None);
+                   (Some (VStr (S "C")), Some (VInt 0), Some (VInt 2), None); (Some (VStr (S "F")), Some (VInt 0), None, None);
+                   (Some (VStr (S "C")), Some (VInt 0), None, None); (Some (VStr (S "Cl")), Some (VInt 0), None, Some (VList [VStr (S "<x2"); VStr (S "!0")]));
+                   (Some (VStr (S "O")), Some (VInt 0), None, Some (VList [VStr (S ">1")]))]
                 /\ t_edges Tm = [(0, 1, VInt 1); (1, 2, VInt 1); (2, 3, VInt 1); (1, 4, VInt 1); (4, 5, VInt 3); (0, 6, VInt 2)]%nat
      | Err _ => False
      end.
-Proof. cbv zeta. do 8 (split; [vm_compute; reflexivity|]). vm_compute. split; reflexivity. Qed.
+Proof. cbv zeta. do 10 (split; [vm_compute; reflexivity|]). vm_compute. split; reflexivity. Qed.
